@@ -27,22 +27,22 @@ func init() {
 // --- leaves -------------------------------------------------------------------
 
 type (
-	regIntT     int                  // registrable, no methods
-	regStrT2    string               // registrable, no methods
-	regStrerT   struct{ s string }   // registrable, Stringer
-	safeFloatT  float64              // SafeValue
-	safeBoolT   bool                 // SafeValue
-	safeStrerT  struct{ s string }   // SafeValue + Stringer
-	c05pair     struct{ A, B interface{} }
-	c05safeKey  string
+	regIntT    int                // registrable, no methods
+	regStrT2   string             // registrable, no methods
+	regStrerT  struct{ s string } // registrable, Stringer
+	safeFloatT float64            // SafeValue
+	safeBoolT  bool               // SafeValue
+	safeStrerT struct{ s string } // SafeValue + Stringer
+	c05pair    struct{ A, B interface{} }
+	c05safeKey string
 )
 
-func (r regStrerT) String() string   { return "R<" + r.s + ">" }
-func (safeFloatT) SafeValue()        {}
-func (safeBoolT) SafeValue()         {}
-func (safeStrerT) SafeValue()        {}
-func (s safeStrerT) String() string  { return "SS<" + s.s + ">" }
-func (c05safeKey) SafeValue()        {}
+func (r regStrerT) String() string  { return "R<" + r.s + ">" }
+func (safeFloatT) SafeValue()       {}
+func (safeBoolT) SafeValue()        {}
+func (safeStrerT) SafeValue()       {}
+func (s safeStrerT) String() string { return "SS<" + s.s + ">" }
+func (c05safeKey) SafeValue()       {}
 
 var c05RegTypes = []reflect.Type{reflect.TypeOf(regIntT(0)), reflect.TypeOf(regStrT2("")), reflect.TypeOf(regStrerT{})}
 
